@@ -173,6 +173,12 @@ def declaredOk (kind : Str) (v : Val) : Bool :=
   let t := ((v.field "nats").field "type").asStr
   t == [] || t == kind
 
+/-- does a decoded account carry tiered JetStream limits? -/
+def accountHasTiers (v : Val) : Bool :=
+  match ((v.field "nats").field "limits").field "tiered_limits" with
+  | .map (_ :: _) => true
+  | _ => false
+
 /-- `load{Operator,Account,User,Activation}`: version switch with an error default -/
 def loadTyped (k : Kind) (ver : Int) (j : Json) : DRes Val :=
   match k with
@@ -188,8 +194,7 @@ def loadTyped (k : Kind) (ver : Int) (j : Json) : DRes Val :=
       let v ← decodeJson Gen.V2.AccountClaims base j
       -- tiers present ⇒ the flat JetStream limits are cleared
       let lim := (v.field "nats").field "limits"
-      let tiers := match lim.field "tiered_limits" with | .map (_ :: _) => true | _ => false
-      if tiers then
+      if accountHasTiers v then
         let lim' := ["mem_storage", "disk_storage", "streams", "consumer", "max_ack_pending", "mem_max_stream_bytes", "disk_max_stream_bytes"].foldl
           (fun l k => l.set k (.int 0)) lim |>.set "max_bytes_required" (.bool false)
         pure (setNats v (fun n => n.set "limits" lim'))
